@@ -137,6 +137,17 @@ func main() {
 	}
 	defer os.RemoveAll(root)
 
+	pool := make(chan walletdb.DB, *workers)
+	for i := 0; i < *workers && *storeOrders > 0; i++ {
+		db, err := walletdb.Create("bdb", filepath.Join(root, fmt.Sprintf("pool%d.db", i)), true, 10*time.Second, false)
+		if err != nil {
+			fmt.Fprintln(os.Stderr, err)
+			os.RemoveAll(root)
+			os.Exit(2)
+		}
+		pool <- db
+	}
+
 	rep := common.NewReport()
 	rep.Rule = "transaction sets are enumerated exhaustively by TLC (every DAG on 0..MaxN nodes, 0..2 edges per pair, two foreign-input " +
 		"placements); non-trivial = distinct sets with at least one in-set spend edge (the Kahn loop runs instead of the no-edges shortcut)"
@@ -220,20 +231,22 @@ func main() {
 
 		// (b) through a real store
 		if *storeOrders > 0 {
-			dir := filepath.Join(root, fmt.Sprintf("c%d", idx))
-			if err := os.MkdirAll(dir, 0700); err != nil {
-				rep.AddError("case %d: %v", idx, err)
-				return
-			}
-			defer os.RemoveAll(dir)
-			db, err := walletdb.Create("bdb", filepath.Join(dir, "tx.db"), true, 10*time.Second, false)
-			if err != nil {
-				rep.AddError("case %d: %v", idx, err)
-				return
-			}
-			defer db.Close()
+			// a database of the pool; the namespaces of this set are
+			// dropped again when it is done
+			db := <-pool
+			var used [][]byte
+			defer func() {
+				_ = walletdb.Update(db, func(tx walletdb.ReadWriteTx) error {
+					for _, k := range used {
+						_ = tx.DeleteTopLevelBucket(k)
+					}
+					return nil
+				})
+				pool <- db
+			}()
 			for o := 0; o < *storeOrders; o++ {
-				nsKey := []byte(fmt.Sprintf("wtxmgr-%d", o))
+				nsKey := []byte(fmt.Sprintf("wtxmgr-%d-%d", idx, o))
+				used = append(used, nsKey)
 				for i := range perm {
 					perm[i] = i + 1
 				}
@@ -320,6 +333,9 @@ func main() {
 	})
 	if err != nil {
 		rep.AddError("input: %v", err)
+	}
+	for len(pool) > 0 {
+		(<-pool).Close()
 	}
 	if err := rep.Write(*out); err != nil {
 		fmt.Fprintln(os.Stderr, err)
